@@ -763,6 +763,9 @@ def main(run):
     cross_step(run, cs, res)
     run.explore('siblings', sibling_cases(run.tier), run_siblings, budget_s=300, chunksize=1)
     run.explore('lowfi', lowfi_cases(run.tier), run_lowfi, budget_s=300, chunksize=1)
+    # the csv dump of this property's field: every row is the recorded field of that assembly at that plane
+    from . import reports as _rep
+    run.explore('report-dumps', _rep.cases_dumps(run.tier), _rep.run_dumps_C14, budget_s=300)
     run.notes['worst_rel_residual'] = max([x['info']['worst_rel_residual'] for x in res if x.get('info')] or [0.0])
     # vacuity
     need = [('step_used', 'user-step-honoured'), ('step_used', 'user-step-ignored'),
@@ -778,6 +781,9 @@ def main(run):
 
 
 def replay(body):
+    if str((body.get('scenario') or {}).get('probe', '')).startswith('report-'):
+        from . import reports
+        return reports.replay(body)
     from ..run import guarded
     sc = dict(body['scenario'])
     sc.pop('ref_step_case', None)
